@@ -564,7 +564,7 @@ def _store(ctx: Ctx, j: Judge) -> None:
 
     # the systematic walk over each object
     for b, obj in zip(built, objs):
-        mutants = go.mutations(ch, b.raw, b.marks, cap=max(6, min(48, 400_000 // (len(b.raw) + 1))))
+        mutants = go.mutations(ch, b.raw, b.marks, cap=max(6, min(48, 400_000 // (len(b.raw) + 1)))) + list(b.extra.get("mutants", []))
         if b.name == "Tx" and "stripped" in b.extra and not b.obj.is_segwit:
             # a legacy transaction written in the segwit form: marker, flag, one empty stack per input
             mutants.append(("superfluous-witness", b.raw[:4] + b"\x00\x01" + b.raw[4:-4] + b"\x00" * len(b.obj.vin) + b.raw[-4:]))
